@@ -231,6 +231,7 @@ class Translator:
         self.stack = []
         self.forced_res = forced_res or {}    # coqname -> True: keep the res type of the pinned revision
         self.used_enums = {}
+        self.reserved = {}     # coq names of the targets -> (owner, fn) when the target IS that whole function
         # tables generated at build time (build.rs -> crc32_table.rs): parameters of the functions that use them;
         # their dimensions are part of their Rust types ([u32; 256], [[u32; 256]; 16])
         self.ext_tables = {"TABLE": ([256], "u32"), "TABLE16": ([16, 256], "u32")}
@@ -242,8 +243,8 @@ class Translator:
     def find_fn(self, ix, owner, name):
         if (owner, name) in ix.fns:
             return ix, ix.fns[(owner, name)]
-        for other in self.files.values():
-            if (owner, name) in other.fns and owner is not None:
+        for f, other in self.files.items():
+            if f in ("src/raw/mod.rs", "src/bytes.rs") and (owner, name) in other.fns and owner is not None:
                 return other, other.fns[(owner, name)]
         return None, None
 
@@ -262,7 +263,10 @@ class Translator:
             raise Untranslatable("recursion through " + name)
         self.stack.append(key)
         try:
-            r = self.translate_fn(fix, item, "src_fn_%s%s" % ((owner + "_") if owner else "", name))
+            cn = "src_fn_%s%s" % ((owner + "_") if owner else "", name)
+            if cn in self.reserved and self.reserved[cn] != (owner, name):
+                cn += "__fn"
+            r = self.translate_fn(fix, item, cn)
         except Untranslatable as ex:
             self.memo[key] = ex
             raise
@@ -1177,10 +1181,16 @@ class Translator:
             elif p[0] == "none" and none is None:
                 none = blk
             elif p[0] in ("wild", "bind"):
+                if p[0] == "bind" and not (p[1][0].islower() or p[1][0] == "_"):
+                    raise Untranslatable("pattern %s on an option" % p[1])
+                if p[0] == "bind":
+                    raise Untranslatable("binding pattern on an option")
                 if some is None:
                     some = (None, blk)
                 if none is None:
                     none = blk
+            else:
+                raise Untranslatable("pattern %s on an option" % (p,))
         if some is None or (none is None and k[0] != "cont"):
             raise Untranslatable("option match is not exhaustive")
         ety = o.ty[1]
@@ -1209,8 +1219,17 @@ class Translator:
                 for p in pats:
                     if p[0] == "ctor" and p[1][-1] == vn and (len(p[1]) == 1 or p[1][-2] in (ename, "Self")):
                         chosen = (p, blk)
+                    elif p[0] == "ctor" and p[1][-1] not in [x[0] for x in variants]:
+                        raise Untranslatable("pattern %s on the enum %s" % ("::".join(p[1]), ename))
+                    elif p[0] == "bind" and p[1] in [x[0] for x in variants]:
+                        if p[1] == vn:
+                            chosen = (("ctor", [p[1]], []), blk)
+                    elif p[0] == "bind" and not (p[1][0].islower() or p[1][0] == "_"):
+                        raise Untranslatable("pattern %s on the enum %s" % (p[1], ename))
                     elif p[0] in ("wild", "bind"):
                         chosen = (p, blk)
+                    elif p[0] not in ("ctor",):
+                        raise Untranslatable("pattern %s on the enum %s" % (p, ename))
                     if chosen:
                         break
                 if chosen:
@@ -1247,6 +1266,19 @@ class Translator:
         pats, blk = arms[0]
         conds, facts = [], []
         for p in pats:
+            if p[0] == "bind":
+                # an identifier in pattern position: a constant of the source is a CONSTANT PATTERN; a lower-case
+                # name that is no constant is a binding; anything else cannot be given a meaning here
+                c = self.const(p[1], ctx)
+                if c is not None:
+                    p = ("lit", c.const)
+                elif not (p[1][0].islower() or p[1][0] == "_") or len(pats) > 1:
+                    raise Untranslatable("pattern %s is neither a known constant nor a binding" % p[1])
+            elif p[0] == "ctor" and not p[2]:
+                c = self.const_path(p[1], ctx)
+                if c is None:
+                    raise Untranslatable("pattern %s on an integer" % "::".join(p[1]))
+                p = ("lit", c.const)
             if p[0] in ("wild", "bind"):
                 e2 = dict(env)
                 if p[0] == "bind":
@@ -1503,10 +1535,9 @@ class Translator:
             return V(str(TAGS[p[1]]), "tag", TAGS[p[1]], TAGS[p[1]])
         if p[0] in ("crate", "self", "super", "raw"):
             return self.path(p[1:], env, ctx, exp)
-        if len(p) == 2:
-            c = self.const(p[1], ctx)
-            if c is not None:
-                return c
+        c = self.const_path(p, ctx)
+        if c is not None:
+            return c
         raise Untranslatable("unknown path " + "::".join(p))
 
     def enum_ctor(self, ename, vname, args, env, ctx):
@@ -1532,8 +1563,20 @@ class Translator:
                 raise Untranslatable("variant %s::%s" % (ename, vname))
         return None
 
+    def const_path(self, p, ctx):
+        """a path in constant position: NAME, module::NAME (lower-case module), uN::MAX; Type::NAME is an associated
+        constant, which is not indexed -> None"""
+        if len(p) >= 2 and p[-1] in ("MAX", "MIN") and p[-2] in INT_BITS:
+            return num(tmax(p[-2]) if p[-1] == "MAX" else 0, p[-2])
+        if len(p) == 1:
+            return self.const(p[0], ctx)
+        if all(x[0].islower() for x in p[:-1]) and not any(x in INT_BITS for x in p[:-1]):
+            return self.const(p[-1], ctx)
+        return None
+
     def const(self, n, ctx):
-        for ix in self.all_idx(ctx.ix):
+        own = [ctx.ix] + [ix for f, ix in self.files.items() if f == "src/raw/mod.rs" and ix is not ctx.ix]
+        for ix in own:
             if n in ix.consts:
                 tyt, et = ix.consts[n]
                 try:
@@ -1807,7 +1850,9 @@ class Translator:
                 pre += p3
             ctx.ext_used.add(tn)
             return pre, V("(List.nth (N.to_nat %s) %s 0)" % (i.code, tn), ety, 0, tmax(ety))
-        if base[0] == "path" and base[1][-1] in self.tables:
+        if base[0] == "path" and len(base[1]) == 1 and base[1][0] in env:
+            pass
+        elif base[0] == "path" and base[1][-1] in self.tables:
             name, length = self.tables[base[1][-1]]
             pre, i = self.expr(ix, env, ctx, "usize")
             i = self.coerce(i, "usize")
